@@ -143,9 +143,28 @@ def h_dict_order(cls, nested):
         c.check('equals-its-own-copy-with-another-key-order', (True if E.eq(x, z) else False) and (True if E.eq(z, x) else False))
     return h
 
+KEYSETS = [('a',), ('b',), ('a', 'b'), ('b', 'a'), ('b', 'c')]
+def h_dict_keys(cls):
+    """two dicts over independently chosen key sets (same or different keys, same or different insertion order), values None / int / str: eq agrees with ==, both ways"""
+    def h(c):
+        E = _E()
+        kx = c.pick('x.keys', KEYSETS); ky = c.pick('y.keys', KEYSETS)
+        x = cls(); y = cls()
+        for k in kx: x[k] = V.scalar(c, 'x.' + k, ['none', 'int', 'str'], strs = ['a', 'B'])
+        for k in ky: y[k] = V.scalar(c, 'y.' + k, ['none', 'int', 'str'], strs = ['a', 'B'])
+        c.cover('same-size-different-keys', len(kx) == len(ky) and set(kx) != set(ky))
+        r = True if E.eq(x, y) else False; r2 = True if E.eq(y, x) else False
+        c.check('eq-on-dicts-agrees-with-==-whatever-the-key-sets', r == (True if x == y else False))
+        c.check('symmetric', r == r2)
+    return h
+
 def obligations(tier):
     q = tier == 'quick'
     obs = []
+    for cls in (dict, MyDict):
+        for i, ks in enumerate(KEYSETS):
+            obs.append(Ob('dict-key-sets.%s.%s' % (cls.__name__.lower(), ''.join(ks)), h_dict_keys(cls), setup = setup, pins = {'x.keys': i}, budget_s = 300,
+                          desc = 'eq on two %ss over independently chosen key sets (x has keys %s) agrees with ==' % (cls.__name__, ks)))
     for cls in (dict, MyDict):
         for nested in (False, True):
             obs.append(Ob('dict-key-order.%s%s' % (cls.__name__.lower(), '.nested' if nested else ''), h_dict_order(cls, nested), setup = setup, budget_s = 300,
